@@ -300,6 +300,10 @@ def loop_invariants(it, lp):
         for x in subterms(t0):
             if x[0] == 'icmp' and x[2] in carried_syms and not (set(subterms(x[3])) & carried_syms):
                 cands.append((x[2], x[3]))
+    # a cursor that only moves down stays below its initial value
+    for r, p, fv, iv in ints:
+        if isinstance(iv, tuple) and not (set(subterms(iv)) & carried_syms):
+            cands.append((fv, iv))
     cands = list(dict.fromkeys(cands))
     entry_facts = set(lp.entry_state.facts)
     inv = []
@@ -399,6 +403,8 @@ def classify(it, s, invariants):
             return 'DOC', 'documented rejection: ' + DOC_MIN[base][0]
         if base.endswith(EMPTY_OK_SUFFIX) and 'iecewise' in base and lf and all(c == 1 for _, c in lf):
             return 'DOC', 'documented rejection: empty piecewise function'
+        if entails(facts, ('icmp', 'ge', ('ic', 0), ('ic', 1))):
+            return 'ARITH', 'unreachable: the conditions on the path to it contradict each other (linear arithmetic)'
         return None, 'explicit panic reachable under %s' % [term_str(f)[:80] for f in list(facts)[:4]]
     if kind in ('unwrap', 'expect') and isinstance(cond, tuple) and cond[0] == 'not' and cond[1][0] == 'unord':
         a, b = cond[1][1], cond[1][2]
